@@ -107,9 +107,7 @@ class Trainer:
             u = self.state.get_history("u", flat=True)[trim_idx]
             self.clusterer.fit(u, weights_trimmed)
             labels = self.clusterer.predict(u)
-            mode_stats = ModeStatistics.from_particles(
-                u, weights_trimmed, labels, dof_fallback=self.DOF_FALLBACK
-            )
+            mode_stats = self._fit_modes(u, weights_trimmed, labels)
         elif self.clustering and not refit:
             # Use previous clustering - return existing mode_stats
             # This requires the caller to keep track of previous mode_stats
@@ -122,9 +120,7 @@ class Trainer:
                 # the resampler predicts would disagree, so refit now.
                 self.clusterer.fit(u, weights_trimmed)
                 labels = self.clusterer.predict(u)
-            mode_stats = ModeStatistics.from_particles(
-                u, weights_trimmed, labels, dof_fallback=self.DOF_FALLBACK
-            )
+            mode_stats = self._fit_modes(u, weights_trimmed, labels)
         else:
             # No clustering - fit global Student-t distribution
             u = self.state.get_history("u", flat=True)[trim_idx]
@@ -136,4 +132,37 @@ class Trainer:
         if self.pbar is not None:
             self.pbar.update_stats(dict(K=mode_stats.K))
 
+        return mode_stats
+
+    def _fit_modes(self, u, weights, labels):
+        """Fit one mode per cluster, indexed by cluster label."""
+        mode_stats = ModeStatistics.from_particles(
+            u, weights, labels, dof_fallback=self.DOF_FALLBACK
+        )
+        occurring = np.unique(labels)
+        n_clusters = self.clusterer.n_clusters_
+        if len(occurring) < n_clusters:
+            # Even a fresh fit can contain a cluster that attracts no training
+            # point. The resampler labels particles by cluster number, so every
+            # cluster needs a mode at its own index: empty ones get the global fit.
+            fallback = ModeStatistics.from_global(
+                u, weights, dof_fallback=self.DOF_FALLBACK
+            )
+            rank = {int(c): i for i, c in enumerate(occurring)}
+
+            def pick(fitted, default):
+                return np.array(
+                    [
+                        fitted[rank[c]] if c in rank else default[0]
+                        for c in range(n_clusters)
+                    ]
+                )
+
+            mode_stats = ModeStatistics(
+                means=pick(mode_stats.means, fallback.means),
+                covariances=pick(mode_stats.covariances, fallback.covariances),
+                degrees_of_freedom=pick(
+                    mode_stats.degrees_of_freedom, fallback.degrees_of_freedom
+                ),
+            )
         return mode_stats
